@@ -128,7 +128,8 @@ Definition fgg_eq_model_b (a b : fgg) : bool :=
 
 (** verdicts of [c14_fgg_check]
      0  ok
-     1  the round-tripped grammar is not isomorphic to the original (oracle [hrg_iso_b] rejects)
+     1  the round-tripped grammar is not isomorphic to the original (oracle [hrg_iso_b] rejects; the
+        rules dictionary of the result is first put in the key order of the original: [align_rules])
      2  the generated grammar is not well formed (harness bug)
      3  all ids explicit, but the second round trip does not reproduce the JSON
      4  the round trip raised an exception on a well-formed grammar; the model raises the same
@@ -160,7 +161,7 @@ Definition c14_fgg_check (x : list str * fgg_w * bool * rt_obs) : nat :=
   | ObsOk j gw' perms j2 =>
       let g' := fgg_of gw' in
       if negb (labels_same_b (f_hrg g) (f_hrg g')) then 5
-      else if negb (hrg_iso_b (f_hrg g) (f_hrg g') perms) then 1
+      else if negb (same_keys_b (f_hrg g) (f_hrg g') && hrg_iso_b (f_hrg g) (align_rules (f_hrg g) (f_hrg g')) perms) then 1
       else if negb (interp_same_b g g') then 6
       else if (match j2 with Some j2' => all_explicit (f_hrg g) && negb (json_eqb j j2') | None => false end) then 3
       else
